@@ -157,7 +157,16 @@ def monitor_factory(ctx):
                 if other in ("_source",):
                     continue
                 if other in hub:
-                    sigma[other + ".workspace"] = os.path.join(root, other)
+                    # "that step's root directory": the directory that holds the parent's instances
+                    # (the parent's own workspace when it has a single, unparameterised instance),
+                    # read off the real graph rather than rebuilt from the name
+                    held = [n for n in names if n in dag.values]
+                    if not held:
+                        continue
+                    dirs = set(dag.values[n].workspace.value if n == other
+                               else os.path.dirname(dag.values[n].workspace.value) for n in held)
+                    if len(dirs) == 1:
+                        sigma[other + ".workspace"] = dirs.pop()
                 else:
                     cand = [n for n in names if n in dag.values and all(
                         str(rec.params.get(k, v)) == str(v) for k, v in dag.values[n].params.items())]
@@ -171,7 +180,7 @@ def monitor_factory(ctx):
                     continue
                 # documented domain: every referenced workspace is resolvable and
                 # no workspace token is glued to another token
-                refs = re.findall(r"\$\(([\w.-]+)\.workspace\)", src)
+                refs = re.findall(r"\$\(([-!\$%\^&\*\(\)_\+\|~=`{}\[\]:;<>\?,\.\/\w]+)\.workspace\)", src)
                 if any((x + ".workspace") not in sigma for x in refs):
                     ok = False
                     continue
@@ -205,6 +214,30 @@ def label_first_corpus(dep_dir):
             "env": {"variables": {}, "labels": {"TOOL": "$(DEPDIR)/bin/tool"},
                     "dependencies": {"paths": [{"name": "DEPDIR", "path": dep_dir}]}},
             "study": [{"name": "use", "description": "uses the label", "run": {"cmd": "$(TOOL) --version"}}]}
+
+
+ODD_STEP_NAMES = ["sim:fast", "stage+0", "a=b", "x,y", "t~1", "run;2", "q!", "p%c"]
+
+
+def odd_name_funnel_corpus(rng):
+    """funnel parents whose names hold characters that workspace directories do not keep (`:` `+` `=`
+    `,` `~` `;` `!` `%`): `$(<step>.workspace)` in the collector must name the directory that really
+    holds the parent's instances (seeded change C09-k rebuilt it from the raw name)"""
+    odd = rng.choice(ODD_STEP_NAMES)
+    plain = rng.choice(["mesh", "prep"])
+    use_param = rng.random() < 0.8
+    study = [{"name": plain, "description": "d", "run": {"cmd": "echo $(X) > m.out"}},
+             {"name": odd, "description": "d",
+              "run": {"cmd": ("echo $(X) $(Y)" if use_param else "echo flat") + " > sim.out",
+                      "depends": [plain] if rng.random() < 0.5 else []}},
+             {"name": "collect", "description": "d",
+              "run": {"cmd": "cat $(%s.workspace)/*/sim.out $(%s.workspace)/*/m.out > $(WORKSPACE)/all" % (odd, plain),
+                      "restart": "ls $(%s.workspace)" % odd,
+                      "depends": [odd + "_*", plain + "_*"]}}]
+    return {"description": {"name": "oddfunnel", "description": "funnel parents with odd names"},
+            "study": study,
+            "global.parameters": {"X": {"values": [1, 2], "label": "X.%%"},
+                                  "Y": {"values": ["a", "b"], "label": "Y.%%"}}}
 
 
 def envadd_cases(ctx, n):
@@ -309,6 +342,16 @@ def run(ctx, escalated=False):
         c.data["kind"] = "study"
         cases.append(c)
         ctx.count("label-first-corpus")
+    for k in range(6 if quick else 60):
+        c = expprop.one_case(ctx, "odd%d" % k, adversarial=False, monitor=mon, pgen=False,
+                             spec=odd_name_funnel_corpus(ctx.rng))
+        if c is not None:
+            c.data["kind"] = "study"
+            c.nontrivial = True
+            cases.append(c)
+            ctx.count("odd-name-funnel" + ("" if c.judged else "-unjudged"))
+        else:
+            ctx.count("odd-name-funnel-rejected")
     n = 500 if quick else 15000
     judged = 0
     for k in range(n):
